@@ -427,6 +427,25 @@ theorem processLowest_closed (hc : Closed P) (inj : BSt → Nat → BSt) (hinj :
           (Frame.of_eq rfl rfl rfl rfl rfl rfl rfl rfl rfl rfl rfl rfl rfl (fun _ hf => List.mem_cons_of_mem _ hf))
       · exact h3
 
+/-- the part of `_process_lowest_timestamp_transit_event` after the pop (counter check and context clean-up of a Flush
+    event, the flag) -/
+theorem processLowest_tail_closed (hc : Closed P) (inj : BSt → Nat → BSt) (hinj : ∀ s site, P s → P (inj s site))
+    (s : BSt) (i : Nat) (st : Stmt) (rest : List Stmt) (hl : lowest s = some i) (hb : (s.th i).buf = st :: rest)
+    (h3 : P (popStep s i st rest)) : P (processLowest inj s).1 := by
+  rw [processLowest_eq, hl]
+  dsimp only
+  rw [hb]
+  dsimp only
+  split
+  · have h3' : P (if (popStep s i st rest).cfg.reportBeforeFlushCleanup = true then
+        checkFailures inj (popStep s i st rest) else popStep s i st rest) := by
+      split
+      · exact checkFailures_closed hc inj hinj _ h3
+      · exact h3
+    exact hc.frame _ _ (cleanupContexts_closed hc.toClosedH _ h3')
+      (Frame.of_eq rfl rfl rfl rfl rfl rfl rfl rfl rfl rfl rfl rfl rfl (fun _ hf => List.mem_cons_of_mem _ hf))
+  · exact h3
+
 theorem batchLoop_closed (hc : Closed P) (inj : BSt → Nat → BSt) (hinj : ∀ s site, P s → P (inj s site)) :
     ∀ (fuel : Nat) (s : BSt), P s → P (batchLoop inj fuel s)
   | 0, s, h => by unfold batchLoop; exact h
